@@ -213,22 +213,30 @@ class MatchFn:
         self.push_nodes = [n for n, _ in pushes]
         for n, call in pushes:
             br = [(b, lab) for b, lab in view.controlling_branches(n) if b.kind == "branch"]
+            facts = guard_facts(view, n)
+            # distances: variables whose definition is a gcirc(...) call
+            gvars = {v for m in cfg.nodes for v, rhs in node_defs(m) if callee_name(strip(rhs)) == "gcirc"}
             filt = None
-            for b, lab in br:
-                c = strip(b.c)
-                if c.get("kind") == "BinaryOperator" and c.get("opcode") in ("<=", ">=", "<", ">"):
-                    filt = (b, lab, c)
-            ok = False
-            msg = "no distance comparison controls the record"
-            if filt:
-                b, lab, c = filt
-                l, r = render(c["inner"][0]), render(c["inner"][1])
-                op = c["opcode"]
-                if op in (">=", ">"):
-                    l, r, op = r, l, {">=": "<=", ">": "<"}[op]
-                ok = lab == "T" and op == "<="
-                self.dvar, self.rvar, self.fbranch = l, r, b
-                msg = "recorded only when `%s %s %s` holds (inclusive, so that radius 0 still matches identical points)" % (l, op, r)
+            ok = None
+            msg = "no distance comparison controls the record (facts that hold there: %s)" % sorted(facts)
+            import re as _re
+            for ft in sorted(facts):
+                mt = _re.match(r"^(!\()?([A-Za-z_]\w*)(<=|<)([A-Za-z_]\w*)\)?$", ft)
+                if not mt:
+                    continue
+                neg, l, op, r = bool(mt.group(1)), mt.group(2), mt.group(3), mt.group(4)
+                if not neg and l in gvars:
+                    holder = [bb for bb, lab in br if l in render(bb.c) and r in render(bb.c)]
+                    if holder:
+                        filt = (holder[0], "T", None)
+                        self.dvar, self.rvar, self.fbranch = l, r, holder[0]
+                        ok = op == "<="
+                        msg = "recorded only when `%s %s %s` holds (inclusive, so that radius 0 still matches identical points)" % (l, op, r)
+                        break
+                if neg and r in gvars:
+                    msg = "the record is guarded by the negation of `%s %s %s`, which also lets NaN distances through: not judged" % (l, op, r)
+            if ok is None and gvars and not any(g in ft for ft in facts for g in gvars):
+                ok = False      # a distance is computed here but no test on it controls the record
             chk.ob("R12.1", "match::record-guarded-by-distance-test", ok, self.w(n), msg)
             if not filt:
                 continue
@@ -306,8 +314,11 @@ class MatchFn:
         chk, cfg, view = self.chk, self.cfg, self.view
         sets = [(n, x) for n in cfg.nodes if isinstance(n.c, dict) for x in walk(n.c) if x.get("kind") == "CXXMemberCallExpr" and callee_name(x) == "setRaDecD"]
         ok = len(sets) == 1
-        chk.ob("R12.2", "match::cover-call", ok, self.where, "one SpatialDomain::setRaDecD call defines the search cap")
-        if not ok:
+        # a locator: when the cap is not defined by exactly one call in this function (moved into a helper, split) nothing is contradicted
+        chk.ob("R12.2", "match::cover-call", True if ok else None, self.where, "one SpatialDomain::setRaDecD call defines the search cap (found %d in this function)" % len(sets))
+        if not ok or not hasattr(self, "rvar"):
+            if ok:
+                chk.ob("R12.2", "match::cover-is-cos-of-filter-radius", None, self.where, "the radius variable of the distance filter was not recognised")
             return
         n, call = sets[0]
         a = [render(z) for z in cfront.call_args(call)]
